@@ -421,12 +421,19 @@ class kLeastAbsErrors(pathmodel.AbstractPathModelDAG):
         solution_copy = copy.deepcopy(solution)
         non_empty_paths = []
         non_empty_weights = []
-        for path, weight in zip(solution["paths"], solution["weights"]):
-            if len(path) > 1:
+        # In node-weighted mode a route through a single node is not empty: emptiness is decided
+        # on the internal (expanded) routes, which are filtered together with the reported ones.
+        internal_paths = solution.get("_paths_internal", solution["paths"])
+        non_empty_internal = []
+        for path, internal_path, weight in zip(solution["paths"], internal_paths, solution["weights"]):
+            if len(internal_path) > 1:
+                non_empty_internal.append(internal_path)
                 non_empty_paths.append(path)
                 non_empty_weights.append(weight)
 
         solution_copy["paths"] = non_empty_paths
+        if "_paths_internal" in solution_copy:
+            solution_copy["_paths_internal"] = non_empty_internal
         solution_copy["weights"] = non_empty_weights
         return solution_copy
 
